@@ -43,8 +43,72 @@ fn wide(width: usize, reverse: bool) {
     if yielded != width + 1 { println!("VIOLATION: width {width} reverse={reverse}: stream ended after {yielded} of {} functions", width + 1); std::process::exit(1); }
 }
 
+/// `width` functions and one more (`late`) all precede one sink. Every offered FnRef is taken, the `width` ones are dropped in
+/// one go while `late` is kept: the sink must NOT be handed out (C02) and, once `late` is dropped, must be (C05), exactly once (C03)
+/// `c05_stall C02` / `C03`: only violations of that property are reported (the others end the scenario quietly)
+macro_rules! viol { ($tag:expr, $($arg:tt)*) => {{ if wanted($tag) { println!($($arg)*); std::process::exit(1); } else { return; } }} }
+fn wanted(tag: &str) -> bool { match std::env::args().nth(1) { Some(w) if w.starts_with('C') => tag.contains(&w) || (w == "C04" && tag.contains("C05")), _ => true } }
+
+fn wide_partial(width: usize, reverse: bool) {
+    let mut b = FnGraphBuilder::new();
+    let ids: Vec<_> = (0..width + 2).map(|i| b.add_fn(Acc { id: i, reads: vec![], writes: vec![] })).collect();
+    let (late, sink) = (width, width + 1);
+    for i in 0..=width { if reverse { b.add_logic_edge(ids[sink], ids[i]).unwrap(); } else { b.add_logic_edge(ids[i], ids[sink]).unwrap(); } }
+    let g = b.build();
+    let (w, cnt) = counting_waker();
+    let mut cx = ctx(&w);
+    let opts = if reverse { fn_graph::StreamOpts::new().rev() } else { fn_graph::StreamOpts::new() };
+    let mut s = Box::pin(g.stream_with(opts));
+    let mut held = vec![];
+    let desc = format!("{width} functions + `late` before one sink, reverse={reverse}");
+    loop {
+        match s.poll_next_unpin(&mut cx) {
+            Poll::Ready(Some(r)) => { if r.id == sink { viol!("C02", "VIOLATION (C02): {desc}: the sink was handed out before any of its {} predecessors was dropped", width + 1); } held.push(r); }
+            Poll::Ready(None) => { viol!("C05", "VIOLATION (C05): {desc}: the stream ended after {} functions", held.len()); }
+            Poll::Pending => break,
+        }
+    }
+    if held.len() != width + 1 { viol!("C05", "VIOLATION (C05): {desc}: {} of the {} functions without predecessors were offered before Pending", held.len(), width + 1); }
+    // drop everything but `late`, in the order offered
+    let mut kept = None;
+    for r in held.drain(..) { if r.id == late { kept = Some(r); } else { drop(r); } }
+    for _ in 0..3 {
+        match s.poll_next_unpin(&mut cx) {
+            Poll::Ready(Some(r)) => { viol!("C02", "VIOLATION (C02): {desc}: function {} was handed out while its predecessor `late` ({late}) is still held by the caller", r.id); }
+            Poll::Ready(None) => { viol!("C05", "VIOLATION (C05): {desc}: the stream ended while the sink was never handed out"); }
+            Poll::Pending => {}
+        }
+    }
+    let w0 = wakes(&cnt);
+    drop(kept);
+    if wakes(&cnt) == w0 { viol!("C05", "VIOLATION (C05): {desc}: `late` dropped, no wake-up signalled"); }
+    match s.poll_next_unpin(&mut cx) {
+        Poll::Ready(Some(r)) if r.id == sink => drop(r),
+        Poll::Ready(Some(r)) => { viol!("C03", "VIOLATION (C03): {desc}: function {} handed out instead of the sink", r.id); }
+        _ => { viol!("C05", "VIOLATION (C05): {desc}: every predecessor of the sink is dropped but the sink is not handed out"); }
+    }
+    match s.poll_next_unpin(&mut cx) {
+        Poll::Ready(None) => {}
+        Poll::Ready(Some(r)) => { viol!("C03", "VIOLATION (C03): {desc}: function {} handed out after all {} functions were", r.id, width + 2); }
+        Poll::Pending => { viol!("C05", "VIOLATION (C05): {desc}: all functions were handed out and dropped but the stream does not end"); }
+    };
+}
+
 fn main() {
-    for width in [3usize, 100, 128, 129, 200, 300, 1000] { wide(width, false); wide(width, true); }
+    for width in [3usize, 100, 128, 129, 200, 300, 1000] {
+        for reverse in [false, true] {
+            if std::panic::catch_unwind(|| wide(width, reverse)).is_err() { println!("VIOLATION (C04/C05): the stream panicked: width {width} reverse={reverse}"); std::process::exit(1); }
+        }
+    }
+    for width in [3usize, 129, 1030, 2100] {
+        for reverse in [false, true] {
+            // a panic inside poll_next (e.g. a count driven below zero in a build with overflow checks) is a violation too
+            if std::panic::catch_unwind(|| wide_partial(width, reverse)).is_err() && wanted("C04/C05") {
+                println!("VIOLATION (C04/C05): the stream panicked: {width} functions + `late` before one sink, reverse={reverse}, FnRefs of the {width} dropped in one go");
+                std::process::exit(1);
+            }
+        }
+    }
     let mut b = FnGraphBuilder::new();
     let [a, bb, c] = b.add_fns([
         Acc { id: 0, reads: vec![], writes: vec![] },
